@@ -84,7 +84,13 @@ def run(ctx):
         "CDS/EDS/LDS/RDS/ECDS generators keep the two clients equal is observed end-to-end (e2e/c03), not proved; delta-aware CDS is proved correct only for the model's "
         "generator and only when the keys of a push name every differing resource (the known class events-behind-state is exactly the failure of that condition)",
         "xDS for a request is generated from proxy.LastPushContext (the snapshot of the last push to the connection); endpoints are live - modelled as the visibility rule of the equiv streams",
-        "the delta client applies resources then removed_resources; the SotW client replaces wildcard types and upserts named types (xDS protocol document); snapshots contain no resource named '*'",
+        "the delta client applies resources and removed_resources of a response; the Lean client lets a resource win over a removal of the same name, the Go harness clients apply "
+        "removals last - the two agree because no modelled response names a resource in both lists (applyDelta_order_irrelevant, removed_disjoint_plain, removed_disjoint_delta_cds, "
+        "wds_removed_disjoint, wauth_removed_disjoint); the SotW client replaces wildcard types and upserts named types (xDS protocol document); snapshots contain no resource named '*'",
+        "wds_wildcard_history assumes changeOK: every index change is announced by a push whose AddressesUpdated names (by resource name, not by address) every resource that differs",
+        "e2e/c03: ECDS is compared too (never-remove: both clients keep an extension config the generator no longer answers while a listener refers to it); forceEDSPush with the real "
+        "generators is reached by the `creconn` client op (both clients reconnect mid-history) and judged in depth by C05's e2e stream; long-lived vs fresh is C01's statement - only one "
+        "hand-written corpus history compares the delta client's endpoints with a client connected at the end (clause delta-eds-ne-fresh)",
         "wds stream: the ambient index behind the real generators is a stub with the contract of ambientindex.go AddressInformation / AdditionalPodSubscriptions (node-local part) / "
         "authorization.go Policies; the real index runs in the ztunnel cases of e2e/c03",
     ]
@@ -148,7 +154,8 @@ MANIFEST = {
     "level_text": ("Lean 4 proof over an exact model of the server-side delta bookkeeping (pushDeltaXds narrowing, removed = watched - generated, record update, "
                    "never-remove, sendDelta, processDeltaRequest with forceEDSPush), of both client kinds, of the real WorkloadGenerator (Address / Workload types) and "
                    "of WorkloadRBACGenerator. History theorems: delta_eq_sotw_history - for a wildcard, not generator-managed type with a full generator, in the closed "
-                   "system whose every server decision is taken by the tied handlers (processDelta, pushDeltaOne, processSotw, pushSotwOne; every response ACKed through "
+                   "system (only that type is watched; the `fullGen` premise is what the real code does for LDS, NDS and for CDS on forced pushes and requests - non-forced CDS pushes and the "
+                   "Authorization type are delta-aware and covered by one-step theorems) whose every server decision is taken by the tied handlers (processDelta, pushDeltaOne, processSotw, pushSotwOne; every response ACKed through "
                    "them; arbitrary subscription changes, lost pushes, reconnects presenting retained state and nonce) the delta client holds exactly what the SotW client "
                    "holds after every prefix of every history, from any retained state; wds_wildcard_history - the same for the wildcard ztunnel client against the index "
                    "over the real generator's model. One-step theorems: removed_exact, ceased_resources_removed, needed_not_removed, ecds_never_removed, named types, "
@@ -160,7 +167,8 @@ MANIFEST = {
     "level_note": ("Trusted: Lean kernel + {propext, Classical.choice, Quot.sound}; hand-written models tied by differential testing (book/equiv/equivd/wds streams on the real "
                    "processDeltaRequest/pushConnectionDelta/pushDeltaXds/processRequest/pushConnection, wds with the real WorkloadGenerator and WorkloadRBACGenerator over a "
                    "stub index); the real BuildDeltaClusters / EDS / LDS / RDS / ECDS generators are not modelled: their contribution to the property is observed by e2e/c03 "
-                   "only (3 known classes, see known-findings); no history theorem for named types (one-step named_push_sync) nor for the on-demand ztunnel client (one-step "
+                   "only (3 known classes, see known-findings); no history theorem for named types (one-step named_push_sync, which covers full EDS / RDS answers; the real partial EDS push "
+                   "is delta-aware: only the undischarged delta_aware_sync applies) nor for the on-demand ztunnel client (one-step "
                    "request / push theorems; its known classes are stated as false FullStatements with witnesses); visibility rule 'requests are served from "
                    "proxy.LastPushContext' is an assumption of the equiv model; hooks pilot/pkg/xds/zz_verif_c03.go, zz_verif_c04.go, zz_verif_e2e.go."),
     "technique": "Lean 4 theorems over an exact model of delta-xDS bookkeeping, both client kinds and the ztunnel generators + differential correspondence with the real Go handlers + end-to-end evaluation of the statement on a real DiscoveryServer",
